@@ -8,6 +8,8 @@ CONSTANTS
  SubjSel = {"same", "ror"}
  Spells = {"dig"}
  Dopts = {"check"}
+ Inits <- InitsMC0
+ NAs <- NAsNone
  MaxOps = 4
  MaxConc = 2
  SameSubject = TRUE
